@@ -8,7 +8,7 @@
       indices, every element access checked ([Panic] where Go panics), fuel ([NoFuel], never observed), generic
       in the container through [less]/[swp] (the swap hook of adjustment.go, the heap.Interface of std_heap.go);
    3. the operations of Slice / Heap / the generic functions, operation sequences, and the judge. *)
-From Coq Require Import List Arith ZArith Bool PeanoNat.
+From Coq Require Import List Arith ZArith Bool PeanoNat Permutation.
 Import ListNotations.
 
 (* ------------------------------------------------------------------ results: Go panics are values *)
@@ -558,3 +558,39 @@ Definition jh_case (ops : list hop) (out : res htrace) : bool :=
   | NoFuel => false
   end.
 End Heap.
+
+(* ================================================================== invariants of Heap worlds (used in theorem statements) *)
+Section HeapInv.
+Variable A : Type.
+Variable d : A.
+Variable lt : A -> A -> bool.
+Definition valof (st : store A) (e : nat) : A := evalue A (getE A d st e).          (* e.Value *)
+Definition ltE (val : nat -> A) (x y : nat) : bool := lt (val x) (val y).            (* handles compared through their values *)
+(* every slot's element knows its own position and its heap; no element sits in two slots *)
+Definition Hd (h : Z) (t : hst A) : Prop :=
+  NoDup (fst t) /\
+  forall k, k < length (fst t) ->
+    nth k (fst t) 0 < length (snd t) /\ eidx A (getE A d (snd t) (nth k (fst t) 0)) = Z.of_nat k /\
+    eown A (getE A d (snd t) (nth k (fst t) 0)) = h.
+Definition free_ok (mine other : list nat) (st : store A) : Prop :=
+  forall e, e < length st -> ~ In e mine -> ~ In e other ->
+    eidx A (getE A d st e) = (-1)%Z /\ eown A (getE A d st e) = (-1)%Z.
+(* structure: handles of both heaps intact, every element outside both reports index -1, owner nil *)
+Definition HS (h : Z) (mine other : list nat) (st : store A) : Prop :=
+  Hd h (mine, st) /\ Hd (1 - h)%Z (other, st) /\ free_ok mine other st.
+(* order: both handle arrays are heaps with respect to the current values *)
+Definition Ord (mine other : list nat) (st : store A) : Prop :=
+  heap_ok nat 0 (ltE (valof st)) mine (length mine) /\ heap_ok nat 0 (ltE (valof st)) other (length other).
+Definition WInv (w : world A) : Prop := HS 0%Z (wh0 A w) (wh1 A w) (wst A w) /\ Ord (wh0 A w) (wh1 A w) (wst A w).
+(* the judge's state describes the world: same live handles per heap, same values *)
+Definition J (w : world A) (j : jst A) : Prop :=
+  Permutation (jl0 A j) (wh0 A w) /\ Permutation (jl1 A j) (wh1 A w) /\ jvals A j = map (evalue A) (wst A w).
+Definition is01 (h : Z) : bool := ((h =? 0) || (h =? 1))%Z.
+(* operations of the API on one of the two heaps (HCorrupt is not an API operation) *)
+Definition hop_wf (o : hop A) : bool :=
+  match o with
+  | HPush _ h _ | HPop _ h | HPeek _ h | HLen _ h | HRemove _ h _ | HFix _ h _ | HPushElem _ h _ | HInit _ h _ | HPopAll _ h _ => is01 h
+  | HSetFix _ _ _ a => is01 a
+  | HCorrupt _ _ _ => false
+  end.
+End HeapInv.
